@@ -237,18 +237,19 @@ def _leaves_under_mul(t, is_leaf, is_factor, under=False, out=None):
 def r_offset_sign(chk, P, tier):
     """POSIX `[+-]hh[:mm[:ss]]`: the sign applies to the whole offset. In the value parse_offset returns, each of hour, minute and second is (inside) an
     operand of a multiplication by the sign (either sign * (h*3600 + m*60 + s) or the distributed form)"""
-    chk.rule("SHAPE.offset_sign", "parse_offset multiplies every component (hour, minute, second) by the sign", floor=3)
-    fn = T + "rule::parse_offset"
-    oks = [p_ for p_ in Sym(P, fn).paths() if p_.end[0] == "return" and result_variant(p_.ret)[0] == "Ok"]
-    if not oks:
-        raise AnchorLost("parse_offset: no Ok path")
+    chk.rule("SHAPE.offset_sign", "parse_offset and parse_rule_time_extended multiply every component (hour, minute, second) by the sign", floor=6)
+    for short in ("parse_offset", "parse_rule_time_extended"):
+        fn = T + "rule::" + short
+        oks = [p_ for p_ in Sym(P, fn).paths() if p_.end[0] == "return" and result_variant(p_.ret)[0] == "Ok"]
+        if not oks:
+            raise AnchorLost(short + ": no Ok path")
 
-    def comp(i):
-        return lambda t: t[0] == "field" and t[2] == i and t[1][0] == "field" and t[1][2] == 0 and any(is_call(x) and str(x[1]).endswith("parse_signed_hhmmss") for x in walk_terms(t[1]))
-    val = oks[0].ret[4][0]
-    for i, name in ((1, "hour"), (2, "minute"), (3, "second")):
-        occ = _leaves_under_mul(val, comp(i), comp(0))
-        chk.expect(bool(occ) and all(occ), name, "the %s component of a POSIX TZ offset is %s in parse_offset's result" % (name, "not multiplied by the sign" if occ else "not used"), loc=P.loc(fn))
+        def comp(i):
+            return lambda t: t[0] == "field" and t[2] == i and t[1][0] == "field" and t[1][2] == 0 and any(is_call(x) and str(x[1]).endswith("parse_signed_hhmmss") for x in walk_terms(t[1]))
+        val = oks[0].ret[4][0]
+        for i, name in ((1, "hour"), (2, "minute"), (3, "second")):
+            occ = _leaves_under_mul(val, comp(i), comp(0))
+            chk.expect(bool(occ) and all(occ), short + ": " + name, "the %s component of a signed hh[:mm[:ss]] value is %s in %s's result" % (name, "not multiplied by the sign" if occ else "not used", short), loc=P.loc(fn))
 
 
 def r_data_indices(chk, P, tier):
